@@ -412,3 +412,18 @@ def edit_formulas(rng, text: str, n: int = 2) -> str:
         form = rng.choice(["(%s)*1.5", "(%s) + 0.25", "-(%s)", "2*(%s) - 1"])
         lines[i] = "%s = %s%s%s" % (m.group(1), form % body.strip(), sep, tail)
     return "\n".join(lines)
+
+
+# a hand-written model with non-ASCII text in comments, component names and descriptions
+UNICODE_MODEL = """# Modèle d'essai — Ca²⁺ handling, µM units
+states("Na µ", x=ScalarParam(1.0, unit="mV", description="potentiel à ° µ"), y=2.0)
+parameters("Na µ", a=ScalarParam(0.5, description="taux α"), b=3.0)
+states("K β", z=0.25)
+expressions("Na µ")
+k = a*x + b # ms**-1
+dx_dt = -k*x + y
+dy_dt = Conditional(Gt(x, 0.5), -y, y*b) # déclin
+expressions("K β")
+w = z*k - x
+dz_dt = w - z
+"""
